@@ -29,6 +29,8 @@ type allocFamily struct {
 	debug bool
 	// req builds the request for a size parameter
 	req func(n int) *http.Request
+	// pre: response headers an outer handler has set before the middleware runs
+	pre map[string][]string
 }
 
 func pad(n int) string { return strings.Repeat("a", n) }
@@ -42,6 +44,9 @@ func allocFamilies() []allocFamily {
 	mk := func(method string, h map[string][]string) *http.Request {
 		return &http.Request{Method: method, Header: http.Header(h)}
 	}
+	upstream := map[string][]string{"Vary": {"Accept-Encoding"}, "Access-Control-Allow-Headers": {"x-upstream"}, "Access-Control-Allow-Methods": {"PATCH"},
+		"Access-Control-Allow-Origin": {"https://upstream.example"}, "Access-Control-Expose-Headers": {"x-up"}, "Access-Control-Allow-Credentials": {"true"},
+		"Access-Control-Max-Age": {"1"}, "Access-Control-Allow-Private-Network": {"true"}}
 	var fams []allocFamily
 	for _, c := range []struct {
 		name string
@@ -53,28 +58,28 @@ func allocFamilies() []allocFamily {
 			fams = append(fams,
 				allocFamily{tag + "/actual GET, long Origin", c.cfg, dbg, func(n int) *http.Request {
 					return mk("GET", map[string][]string{"Origin": {"https://" + pad(n) + ".example.org"}})
-				}},
+				}, nil},
 				allocFamily{tag + "/preflight, long Origin", c.cfg, dbg, func(n int) *http.Request {
 					return mk("OPTIONS", map[string][]string{"Origin": {"https://" + pad(n) + ".example.org"}, "Access-Control-Request-Method": {"PUT"}})
-				}},
+				}, nil},
 				allocFamily{tag + "/preflight, long ACRM", c.cfg, dbg, func(n int) *http.Request {
 					return mk("OPTIONS", map[string][]string{"Origin": {"https://example.com"}, "Access-Control-Request-Method": {"PUT" + pad(n)}})
-				}},
+				}, nil},
 				allocFamily{tag + "/preflight, long ACRM with non-ASCII bytes", c.cfg, dbg, func(n int) *http.Request {
 					return mk("OPTIONS", map[string][]string{"Origin": {"https://example.com"}, "Access-Control-Request-Method": {"PUT" + strings.Repeat("\xc3\xa9\xff", n)}})
-				}},
+				}, nil},
 				allocFamily{tag + "/preflight, long ACRH name with non-ASCII bytes", c.cfg, dbg, func(n int) *http.Request {
 					return mk("OPTIONS", map[string][]string{"Origin": {"https://example.com"}, "Access-Control-Request-Method": {"PUT"},
 						"Access-Control-Request-Headers": {"x-bar,x-foo" + strings.Repeat("\xc3\xa9\xff", n)}})
-				}},
+				}, nil},
 				allocFamily{tag + "/preflight, long ACRH name", c.cfg, dbg, func(n int) *http.Request {
 					return mk("OPTIONS", map[string][]string{"Origin": {"https://example.com"}, "Access-Control-Request-Method": {"PUT"},
 						"Access-Control-Request-Headers": {"x-bar,x-foo" + pad(n)}})
-				}},
+				}, nil},
 				allocFamily{tag + "/preflight, many ACRH elements", c.cfg, dbg, func(n int) *http.Request {
 					return mk("OPTIONS", map[string][]string{"Origin": {"https://example.com"}, "Access-Control-Request-Method": {"PUT"},
 						"Access-Control-Request-Headers": {strings.Repeat("x-bar,", n) + "x-foo"}})
-				}},
+				}, nil},
 				allocFamily{tag + "/preflight, many ACRH lines", c.cfg, dbg, func(n int) *http.Request {
 					lines := make([]string, n)
 					for i := range lines {
@@ -82,7 +87,7 @@ func allocFamilies() []allocFamily {
 					}
 					return mk("OPTIONS", map[string][]string{"Origin": {"https://example.com"}, "Access-Control-Request-Method": {"PUT"},
 						"Access-Control-Request-Headers": lines})
-				}},
+				}, nil},
 				allocFamily{tag + "/preflight, many ACRH lines with upper-case names", c.cfg, dbg, func(n int) *http.Request {
 					lines := make([]string, min(n, 20000))
 					for i := range lines {
@@ -90,11 +95,30 @@ func allocFamilies() []allocFamily {
 					}
 					return mk("OPTIONS", map[string][]string{"Origin": {"https://example.com"}, "Access-Control-Request-Method": {"PUT"},
 						"Access-Control-Request-Headers": lines})
-				}},
+				}, nil},
 				allocFamily{tag + "/preflight, allowed ACRH with padding", c.cfg, dbg, func(n int) *http.Request {
 					return mk("OPTIONS", map[string][]string{"Origin": {"https://example.com"}, "Access-Control-Request-Method": {"PUT"},
 						"Access-Control-Request-Headers": {"authorization, x-bar ,x-foo" + strings.Repeat(",", min(n, 10))}})
-				}},
+				}, nil},
+				allocFamily{tag + "/preflight, many ACRH lines with optional whitespace", c.cfg, dbg, func(n int) *http.Request {
+					lines := make([]string, min(n, 20000))
+					for i := range lines {
+						lines[i] = "x-bar, x-foo"
+					}
+					return mk("OPTIONS", map[string][]string{"Origin": {"https://example.com"}, "Access-Control-Request-Method": {"PUT"},
+						"Access-Control-Request-Headers": lines})
+				}, nil},
+				allocFamily{tag + "/preflight, many ACRH lines, CORS response headers and Vary already set upstream", c.cfg, dbg, func(n int) *http.Request {
+					lines := make([]string, n)
+					for i := range lines {
+						lines[i] = "x-foo"
+					}
+					return mk("OPTIONS", map[string][]string{"Origin": {"https://example.com"}, "Access-Control-Request-Method": {"PUT"},
+						"Access-Control-Request-Headers": lines})
+				}, upstream},
+				allocFamily{tag + "/actual GET, long Origin, CORS response headers and Vary already set upstream", c.cfg, dbg, func(n int) *http.Request {
+					return mk("GET", map[string][]string{"Origin": {"https://" + pad(n) + ".example.org"}})
+				}, upstream},
 			)
 		}
 	}
@@ -123,7 +147,7 @@ func allocFamilies() []allocFamily {
 				}
 				return mk("OPTIONS", map[string][]string{"Origin": {"https://example.com"}, "Access-Control-Request-Method": {"GET"},
 					"Access-Control-Request-Headers": {strings.Join(names, ",")}})
-			}})
+			}, nil})
 		}
 	}
 	return fams
@@ -149,14 +173,23 @@ func measure(f allocFamily, n int) (allocs float64, err error) {
 			copy(req.Header[k], v)
 		}
 	}
+	// what an outer handler set: the same slices are installed again before every run (a map store into
+	// a cleared map of sufficient capacity does not allocate), full to capacity so that appends copy
+	preset := func() {
+		for k, v := range f.pre {
+			w.h[k] = v[:len(v):len(v)]
+		}
+	}
 	// warm up (map growth of the reusable writer)
 	for i := 0; i < 3; i++ {
 		clear(w.h)
+		preset()
 		restore()
 		h.ServeHTTP(w, req)
 	}
 	return testing.AllocsPerRun(20, func() {
 		clear(w.h)
+		preset()
 		restore()
 		h.ServeHTTP(w, req)
 	}), nil
